@@ -19,7 +19,6 @@ import re
 from fractions import Fraction
 
 import faithful
-import schemagen
 import k5
 import oracle
 import tocoq
@@ -34,27 +33,6 @@ CORPUS = os.path.join(vlib.ROOT, "corpus", "C03")
 #   unstable      second round trip answer differs
 MUT = os.environ.get("VERIF_C03_MUTATE", "")
 NOANSWER = ("no answer",)
-
-
-def _accepts_null_guarded(doc, s, depth=0):
-    """schemagen._accepts_null with a depth guard: the shared version does not terminate on mutually recursive
-    nullable references (D0 = anyOf[$ref D1, null], D1 = anyOf[$ref D0, null]; met with VERIF_SEED=777, thorough).
-    Installed in this process only (reported to the integrator)."""
-    if not isinstance(s, dict):
-        return True
-    if depth > 24:
-        return False
-    s = schemagen.resolve(doc, s)
-    t = s.get("type")
-    if t == "null" or (isinstance(t, list) and "null" in t):
-        return True
-    for k in ("oneOf", "anyOf"):
-        if k in s and any(_accepts_null_guarded(doc, x, depth + 1) for x in s[k]):
-            return True
-    if t is None and "enum" not in s and "properties" not in s and "allOf" not in s and "$ref" not in s \
-            and "oneOf" not in s and "anyOf" not in s:
-        return True
-    return False
 
 
 # ----------------------------------------------------------------- JSON helpers
@@ -179,18 +157,6 @@ def mutate_answer(o, second=False):
 
 
 # ----------------------------------------------------------------- findings
-def strip_new_nulls(w, v, names):
-    """w without the null members named in `names` that the instance v does not have at the same place"""
-    if isinstance(w, dict):
-        vv = v if isinstance(v, dict) else {}
-        return {k: strip_new_nulls(x, vv.get(k), names) for k, x in w.items()
-                if not (x is None and k in names and k not in vv)}
-    if isinstance(w, list):
-        vl = v if isinstance(v, list) and len(v) == len(w) else [None] * len(w)
-        return [strip_new_nulls(x, y, names) for x, y in zip(w, vl)]
-    return w
-
-
 def boxed_option_members(dump):
     """(type name, wire name) of members with state Optional whose type is Box<Option<_>> in the dumped IR"""
     res = set()
@@ -246,8 +212,7 @@ def unit_forms_to_null_payload(w, ext, adj):
 
 def classify_violation(ctx, ex, it, kinds, w):
     """-> finding dict or None.  Classes are decided by re-evaluation, not by name:
-    F1: the only defect is an invalid output, and deleting the null members that sit at Optional members of
-        type Box<Option<_>> (read from the dumped IR) makes the output valid;
+    (F1 — null at Optional Box<Option<_>> members — is fixed by b9da3ef: its corpus witnesses are regression cases);
     F2: the definition is a oneOf rendered as an untagged enum and the output satisfies two or more branches;
     F3: rewriting the unit-variant forms of externally / adjacently tagged enums that also have data-carrying
         variants back to their null-payload form ({"V": null}, {tag: "V", content: null}) repairs the output."""
@@ -255,11 +220,6 @@ def classify_violation(ctx, ex, it, kinds, w):
     ref = {"$ref": "#/definitions/" + it["name"]}
     for f in ctx.findings_for():
         cl = f.get("class")
-        if cl == "optional-member-boxed-option-serialises-null" and kinds == ["invalid-output"]:
-            names = {m for _, m in boxed_option_members(ex.dumps[it["m"]])}
-            rep = strip_new_nulls(w, it["v"], names)
-            if names and not exact_eq(rep, w) and oracle.classify([(doc, [(ref, rep)])])[0][0] is True:
-                return f
         if cl == "null-payload-becomes-unit-variant" and \
                 set(kinds) <= {"invalid-output", "declared-data-lost"}:
             # F3: rewriting the unit-variant strings of mixed externally tagged enums back to {"V": null} repairs
@@ -374,15 +334,8 @@ def run(ctx):
         "declared_only of the theorems is stated on the model (every object key is a declared wire name, structs are "
         "given as objects, unit variants in their canonical form); the direct evaluation restricts v by the schema",
     ]
-    try:    # Coq's printer needs stack for the long result strings of run_rt2 (children inherit the limit)
-        import resource
-        soft, hard = resource.getrlimit(resource.RLIMIT_STACK)
-        resource.setrlimit(resource.RLIMIT_STACK, (hard, hard))
-    except Exception:  # noqa
-        pass
     vlib.build_harness(bins=("vh",))
     faithful.CORPUS = CORPUS      # curated C03 corpus heads the same compiled world
-    schemagen._accepts_null = _accepts_null_guarded
     ex = faithful.build(ctx, n_sup=30 if quick else 160, n_full=40 if quick else 220, n_inst=3 if quick else 6,
                         world_name="c03" + T)
     ctx.coverage["distribution"] = faithful.distribution(ex)
@@ -491,11 +444,11 @@ def run(ctx):
         ents = sorted(((int(k), v) for k, v in d["entries"].items()))
         txt = tocoq.clist(ents, lambda kv: "(%s, %s)" % (tocoq.cN(kv[0]), tocoq.centry(kv[1])), "(id * entry)")
         norm = lambda t: re.sub(r"\s+", "", t)
-        ctx.oblige("witness: Props/C03.v ab_space has exactly the entries typify dumps for corpus/C03/ab-boxed-option.json "
-                   "(B.next : Optional, Box<Option<B>>)", norm(txt) in norm(open(PROPS).read()) and
+        ctx.oblige("regression witness of fixed finding C03-F1: Props/C03.v ab_space has exactly the entries typify dumps "
+                   "for corpus/C03/ab-boxed-option.json (B.next : Optional, Box<Option<B>>)", norm(txt) in norm(open(PROPS).read()) and
                    ("B", "next") in boxed_option_members(d), txt[:600])
     except Exception as e:  # noqa
-        ctx.oblige("witness space of finding C03-F1 is reproduced", False, str(e)[-800:])
+        ctx.oblige("regression witness space of fixed finding C03-F1 is reproduced", False, str(e)[-800:])
 
     # ---- K5: model double round trip vs compiled double round trip
     try:
